@@ -1245,6 +1245,49 @@ def call_sigs(node) -> set:
     return sigs
 
 
+NONLIT = (ast.Name, ast.Attribute, ast.Subscript)   # an operand whose type the tool cannot know
+DISPATCHING = {"str", "repr", "len", "hash", "getattr", "hasattr", "int", "float", "bool", "format", "type", "iter",
+               "abs", "dir", "vars", "callable", "isinstance", "id", "bytes", "complex", "round", "divmod", "pow",
+               "ascii", "bin", "hex", "oct", "issubclass", "reversed", "enumerate", "zip", "range", "slice"}
+
+
+def dispatch_sigs(roots) -> set:
+    """F16-16 / F16-17: the deleted statements call nothing but builtins, and apply an operator / attribute read /
+    subscript / formatting / truth test (operator_dispatch) or a builtin that dispatches to a dunder method
+    (builtin_dispatch) to an operand that is a name / attribute / subscript.  A deleted statement that calls anything
+    else is never covered by these two."""
+    import builtins
+    nodes = [n for r in roots for n in ast.walk(r)]
+    for n in nodes:
+        if isinstance(n, ast.Call) and not (isinstance(n.func, ast.Name) and hasattr(builtins, n.func.id)):
+            return set()
+    sigs = set()
+    for n in nodes:
+        ops = []
+        if isinstance(n, ast.BinOp):
+            ops = [n.left, n.right]
+        elif isinstance(n, ast.UnaryOp):
+            ops = [n.operand]
+        elif isinstance(n, ast.Compare):
+            ops = [n.left, *n.comparators]
+        elif isinstance(n, (ast.Attribute, ast.Subscript, ast.Starred)) and isinstance(n.ctx, ast.Load):
+            ops = [n.value]
+        elif isinstance(n, ast.FormattedValue):
+            ops = [n.value]
+        elif isinstance(n, ast.BoolOp):
+            ops = n.values[:-1]
+        elif isinstance(n, (ast.IfExp, ast.If)):
+            ops = [n.test]
+        elif isinstance(n, ast.Dict):
+            ops = [v for k, v in zip(n.keys, n.values) if k is None]
+        if any(isinstance(o, NONLIT) for o in ops):
+            sigs.add("operator_dispatch")
+        if (isinstance(n, ast.Call) and isinstance(n.func, ast.Name) and n.func.id in DISPATCHING
+                and any(isinstance(a, NONLIT) for a in n.args)):
+            sigs.add("builtin_dispatch")
+    return sigs
+
+
 def finding_sig(src_before, deleted=None):
     """structural predicates of the listed findings.  F16-12 (callee_by_name) also covers callees that cannot be
     resolved by their bare name: a name with several definitions, an imported name, a decorated definition, a
@@ -1266,7 +1309,20 @@ def finding_sig(src_before, deleted=None):
             if d.decorator_list or (isinstance(d, ast.ClassDef) and (d.bases or d.keywords)):
                 suspect.add(name)
     roots = list(tree.body) if deleted is None else list(deleted)
-    sigs, seen, todo = set(), set(), list(roots)
+    # F16-21 / F16-22 never cover a statement under the protection of an except clause (there the raise is the point:
+    # repaired defect F16-16) nor one that touches `_` while `_` is read (repaired defect F16-17)
+    guarded = set()
+    for t in ast.walk(tree):
+        if isinstance(t, ast.Try) and t.handlers:
+            for b in t.body:
+                guarded |= {(n.lineno, n.col_offset) for n in ast.walk(b) if isinstance(n, ast.stmt)}
+    us_read = underscore_is_read(tree)
+
+    def dispatch_root(r):
+        if (getattr(r, "lineno", None), getattr(r, "col_offset", None)) in guarded:
+            return False
+        return not (us_read and any(isinstance(n, ast.Name) and n.id == "_" for n in ast.walk(r)))
+    sigs, seen, todo = dispatch_sigs([r for r in roots if dispatch_root(r)]), set(), list(roots)
     while todo:
         node = todo.pop()
         sigs |= call_sigs(node)
@@ -1514,11 +1570,28 @@ FIXED_WITNESSES = {
     "F16-11": ["def f():\n    raise E\nf()\n", "def f():\n    while True:\n        print(1)\nf()\n",
                "def f():\n    assert False\nf()\n"],
 }
+FIXED_WITNESSES.update({
+    # F16-12 (callees identified by a bare name), repaired by 094537d and c5a2ed7
+    "F16-12": ["_()\n",
+               "class A:\n    def f(self):\n        return 1\nclass B:\n    def f(self):\n        print('x')\nB().f()\n",
+               "from m import f\nclass A:\n    def f(self):\n        return 1\nf()\n",
+               "class A(Base):\n    pass\nA()\n", "@deco\ndef f():\n    return 1\nf()\n",
+               "def cb():\n    return 1\ndef run(cb):\n    cb()\n", "def f():\n    return 1\ndef g(f=print):\n    f()\n"],
+})
+# hunt C16-3 (b77e1c1), C16-4 (c5a2ed7), C16-5 (b8422f7), C16-8 (6a72b20): delete_pointless_statements must not touch them
+UNCHANGED_WITNESSES = {}
+UNCHANGED_WITNESSES.update({
+    "F16-16": ["try:\n    unicode\nexcept NameError:\n    unicode = str\n", "try:\n    int(s)\nexcept ValueError:\n    print('bad')\n",
+              "try:\n    d['k']\nexcept KeyError:\n    print('missing')\n",
+              "try:\n    if x:\n        d['k']\nexcept KeyError:\n    print('missing')\n"],
+    "F16-17": ["print(_)\n_ = 5\n", "print(_('hi'))\ndef _(s):\n    return s\n", "print(_)\nfor _ in range(3):\n    pass\n",
+              "_ = {}\nprint(_)\n_['a'] = 1\n", "def k():\n    global _\n_ = 1\n"],
+    "F16-18": ["class _(Base):\n    pass\n", "class _(B, flag=True):\n    pass\n", "class _(metaclass=M):\n    pass\n"],
+    "F16-19": ["for _ in it:\n    pass\n", "[x for x in it]\n", "[*it]\n", "{x: 1 for x in it}\n", "[0 for _ in [1] for y in it]\n"],
+})
 FINDING_WITNESSES = {
-    "callee_by_name": ["_()\n",
-                       "class A:\n    def f(self):\n        return 1\nclass B:\n    def f(self):\n        print('x')\nB().f()\n",
-                       "from m import f\nclass A:\n    def f(self):\n        return 1\nf()\n",
-                       "class A(Base):\n    pass\nA()\n", "@deco\ndef f():\n    return 1\nf()\n"],
+    "operator_dispatch": ["t >> u\n", "-t\n", "t < u\n", "t[0]\n", "t.p\n", "f'{t}'\n", "if t:\n    pass\n", "{**t}\n"],
+    "builtin_dispatch": ["str(t)\n", "getattr(t, 'zz')\n", "len(t)\n", "hash(t)\n"],
     "higher_order_builtin": ["list(map(print, xs))\n", "sorted(xs, key=print)\n"],
     "drains_lazy_iterator": ["m = map(lambda x: print('lazy', x), xs)\nlist(m)\n",
                              "g = (print(x) for x in xs)\nsum(g)\n"],
@@ -1559,7 +1632,14 @@ def check(run, mods, wd, rnd):
         for w in ws:
             if still_deleted(mods, w):
                 regress.append({"finding": fid, "case": w})
-    cov["fixed_witnesses"] = sum(len(v) for v in FIXED_WITNESSES.values())
+    for fid, ws in UNCHANGED_WITNESSES.items():
+        for w in ws:
+            mods["core"].parse.cache_clear()
+            with common.quiet():
+                out = mods["fixes"].delete_pointless_statements(w)
+            if out != w:
+                regress.append({"finding": fid, "case": w, "after": out})
+    cov["fixed_witnesses"] = sum(len(v) for v in FIXED_WITNESSES.values()) + sum(len(v) for v in UNCHANGED_WITNESSES.values())
 
     # listed findings
     kf = {f.fields.get("sig"): f for f in common.load_findings(PID) if f.kind == "finding"}
